@@ -1879,14 +1879,50 @@ func c05DoneBeforeFinalWrites(c *core.Ctx, fns []*ssa.Function) {
 			}
 			nSig++
 			var wc *ssa.Call
-			real := core.AllOrigins(st.Val, func(o ssa.Value) bool {
-				cr, idx, isC := core.CallResult(core.ResolveFree(o))
+			var isReal func(o ssa.Value, depth int) bool
+			isReal = func(o ssa.Value, depth int) bool {
+				for k := 0; k < 4; k++ {
+					if r := core.ResolveFree(o); r != o {
+						o = r
+						continue
+					}
+					break
+				}
+				if os := core.Origins(o); len(os) == 1 && os[0] != o && depth < 3 {
+					return isReal(os[0], depth+1)
+				}
+				cr, idx, isC := core.CallResult(o)
 				if isC && idx == 1 && core.InfoOf(&cr.Call).Is("context.WithCancel") {
 					wc = cr
 					return true
 				}
+				// a constructor's parameter: what its callers hand it
+				if par, isPar := o.(*ssa.Parameter); isPar && depth < 2 {
+					pf := par.Parent()
+					pi := -1
+					for i, pp := range pf.Params {
+						if pp == par {
+							pi = i
+						}
+					}
+					nSites, okAll := 0, true
+					for _, g := range fns {
+						core.Instrs(g, func(x ssa.Instruction) {
+							cc := core.CallOf(x)
+							if cc == nil || cc.StaticCallee() != pf || pi < 0 || pi >= len(cc.Args) {
+								return
+							}
+							nSites++
+							if !core.AllOrigins(cc.Args[pi], func(a ssa.Value) bool { return isReal(a, depth+1) }) {
+								okAll = false
+							}
+						})
+					}
+					return nSites > 0 && okAll
+				}
 				return false
-			})
+			}
+			real := core.AllOrigins(st.Val, func(o ssa.Value) bool { return isReal(o, 0) })
 			key := core.FuncName(fn) + ":" + fld + ":done-signal-is-a-real-cancel"
 			c.Check(real, key, st.Pos(), "the server stream's done signal is the CancelFunc of a context.WithCancel on every path", "the server stream's done signal can be something other than the CancelFunc of a WithCancel context (a no-op for some kinds of method): when the handler of such a method finishes, a client still sending is not released")
 			if !real || wc == nil {
@@ -2340,6 +2376,24 @@ func c05ReplyBodyClosed(c *core.Ctx, fns []*ssa.Function) {
 				}
 			})
 			return at, in
+		}
+		// the completion literal: the deferred literal of fn that closes the pipe, itself, in a literal nested in it,
+		// or in a single-use method it calls (the completion written as cs.finish(...))
+		for _, o := range order {
+			found := false
+			core.InstrsDeep(o.lit, func(f *ssa.Function, x ssa.Instruction) {
+				if x == pipeClose {
+					found = true
+				}
+				if call, ok := x.(*ssa.Call); ok {
+					if h := call.Call.StaticCallee(); h != nil && h == pipeCloseFn {
+						found = true
+					}
+				}
+			})
+			if found {
+				pipeCloseFn = o.lit
+			}
 		}
 		key := core.FuncName(fn) + ":reply-drained-after-completion"
 		decided := false
